@@ -108,9 +108,10 @@ func validateStore(st ttStore, rcfg refsearch.Config) (bool, error) {
 }
 
 type ttStep struct {
-	Op    string `json:"op"` // search | move
+	Op    string `json:"op"` // search | move | halt (a search cancelled at its N-th cancellation poll, as the engine does on stop/new position)
 	Depth int    `json:"depth,omitempty"`
 	Move  string `json:"move,omitempty"`
+	N     int    `json:"n,omitempty"`
 }
 
 type ttCase struct {
@@ -155,7 +156,7 @@ var checkC11 = def("C11/transparent", func(c ttCase) error {
 				}
 				g1.Push(om)
 				refs = append(refs, rootRef{})
-			case "search":
+			case "search", "halt":
 				if g1.DrawEver() || b1.Result().Outcome == board.Draw {
 					stats.Case("C11/transparent", 0, false, "discarded-drawn-root")
 					return nil
@@ -186,7 +187,7 @@ var checkC11 = def("C11/transparent", func(c ttCase) error {
 	// pass 2: the real searches, sharing one table
 	rec := newRecTT(c.TableBytes)
 	s, rcfg := cfg.make(c.Param)
-	nsearch := 0
+	nsearch, halts := 0, 0
 	for i, st := range c.Steps {
 		if st.Op == "move" {
 			om, _ := g.Cur().Pos.FindMove(st.Move)
@@ -201,7 +202,18 @@ var checkC11 = def("C11/transparent", func(c ttCase) error {
 		rec.mu.Lock()
 		rec.cur, rec.epoch = sb, rec.epoch+1
 		rec.mu.Unlock()
-		_, score, pv, serr := s.Search(context.Background(), &search.Context{TT: rec}, sb, st.Depth)
+		var sctx context.Context = context.Background()
+		if st.Op == "halt" {
+			pc := newPollCtx(max(1, st.N))
+			rec.halted = func() bool { return pc.fired }
+			sctx = pc
+		}
+		_, score, pv, serr := s.Search(sctx, &search.Context{TT: rec}, sb, st.Depth)
+		rec.halted = nil
+		if st.Op == "halt" && serr == search.ErrHalted {
+			halts++
+			continue // nothing to compare: what matters is what it left in the table
+		}
 		if serr != nil {
 			return fmt.Errorf("step %d: search failed: %v", i, serr)
 		}
@@ -237,6 +249,17 @@ var checkC11 = def("C11/transparent", func(c ttCase) error {
 		}
 	}
 	validated := 0
+	for _, st := range rec.stores {
+		if st.Late && st.Bound == search.ExactBound && validated < 24 {
+			done, err := validateStore(st, rcfg)
+			if err != nil {
+				return fmt.Errorf("%s, table %d bytes: store made by a halted search after cancellation was reported: %v", c.Config, c.TableBytes, err)
+			}
+			if done {
+				validated++
+			}
+		}
+	}
 	if len(exact) > 0 {
 		for _, k := range c.Sample {
 			st := exact[((k%len(exact))+len(exact))%len(exact)]
@@ -264,6 +287,9 @@ var checkC11 = def("C11/transparent", func(c ttCase) error {
 	}
 	if moved {
 		labels = append(labels, "successive-positions")
+	}
+	if halts > 0 {
+		labels = append(labels, "halted-search-in-sequence")
 	}
 	stats.Case("C11/transparent", stats.FP(c.FEN, fmt.Sprint(c.Moves), c.Config, c.Param, c.TableBytes, fmt.Sprint(c.Steps)), rec.exactHitsEarlier > 0 || rec.hitsSame > 0, labels...)
 	stats.Note("C11/transparent", "searches", int64(nsearch))
@@ -331,6 +357,17 @@ func genTTCase(t *rapid.T) ttCase {
 			addMoves(rapid.IntRange(1, 2).Draw(t, "plies"))
 		}
 		c.Steps = append(c.Steps, ttStep{Op: "search", Depth: max(1, d-rapid.IntRange(0, 2).Draw(t, "shallower"))})
+	}
+	// the engine halts searches (stop, new position) and goes on with the same table
+	if rapid.IntRange(0, 2).Draw(t, "withhalts") == 0 {
+		var steps []ttStep
+		for _, st := range c.Steps {
+			if st.Op == "search" && rapid.IntRange(0, 1).Draw(t, "haltfirst") == 0 {
+				steps = append(steps, ttStep{Op: "halt", Depth: min(4, st.Depth+rapid.IntRange(0, 1).Draw(t, "deeper")), N: rapid.IntRange(1, 300).Draw(t, "poll")})
+			}
+			steps = append(steps, st)
+		}
+		c.Steps = steps
 	}
 	for i := 0; i < 6; i++ {
 		c.Sample = append(c.Sample, rapid.IntRange(0, 1<<20).Draw(t, "sample"))
